@@ -226,6 +226,8 @@ class Model:
         if oc == "ok" and c in self.JUDGED and c != "rundcpp":
             s["since_pf"] = 0
             s["idx_changed"] = False
+        elif c in self.JUDGED and oc != "ok":
+            s["since_pf"] = 99     # a failed calculation leaves no valid previous results to start from
         s["last"] = c if oc == "ok" else c + "!" + oc
         return out
 
